@@ -546,6 +546,67 @@ Definition classify_number (s : str) : res jvalue :=
   end.
 
 (* ------------------------------------------------------------------ *)
+(* floats as values: binary64 = sign, m, e with value (-1)^s * m * 2^e  *)
+(* in the canonical form f64_round returns                             *)
+(* ------------------------------------------------------------------ *)
+
+Definition f64 : Type := (bool * N * Z)%type.
+
+(* zero has one representation per sign *)
+Definition mk_f64 (neg : bool) (m : N) (e : Z) : f64 := if m =? 0 then (neg, 0, 0%Z) else (neg, m, e).
+
+(* strconv.ParseFloat on a JSON number token *)
+Definition token_value (t : str) : option f64 :=
+  match split_number t with
+  | Some (neg, ip, fp, ex) =>
+      match literal_round ip fp ex with
+      | Some (m, e) => Some (mk_f64 neg m e)
+      | None => None
+      end
+  | None => None
+  end.
+
+(* strconv.ParseFloat on the text of a !!float scalar (Go decimal syntax:
+   optional sign, digits with underscores, optional fraction, optional
+   exponent; None: error, range error or hexadecimal form) *)
+Definition go_parse_float (s : str) : option f64 :=
+  match go_float_numeric s with
+  | Some true =>
+      let neg := match s with c :: _ => c =? 45 | [] => false end in
+      let body := remove_us (strip_sign s) in
+      let '(ip, r1) := span_digits body in
+      let '(fp, r2) := match r1 with
+                       | c :: r => if c =? 46 then span_digits r else ([], r1)
+                       | [] => ([], [])
+                       end in
+      let ex := match r2 with
+                | [] => 0%Z
+                | _ :: r3 =>
+                    let eneg := match r3 with c :: _ => c =? 45 | [] => false end in
+                    let ev := Z.of_N (digits_val 0 (fst (span_digits (strip_sign r3)))) in
+                    if eneg then (- ev)%Z else ev
+                end in
+      match literal_round ip fp ex with
+      | Some (m, e) => Some (mk_f64 neg m e)
+      | None => None
+      end
+  | _ => None
+  end.
+
+(* GetValueRep's float branch as ParseFloat followed by the float printer [fmt] *)
+Definition ff_of (fmt : f64 -> res str) (text : str) : res str :=
+  match go_parse_float text with
+  | Some f => fmt f
+  | None => Err EFloat
+  end.
+
+(* a number token the reader accepts *)
+Definition float_token_ok (t : str) : bool :=
+  forallb (fun c => is_digit c || (c =? 45) || (c =? 43) || (c =? 46) || (c =? 101) || (c =? 69)) t
+  && match t with c :: _ => is_digit c || (c =? 45) | [] => false end
+  && match classify_number t with Ok _ => true | Err _ => false end.
+
+(* ------------------------------------------------------------------ *)
 (* JSON reader (strict RFC 8259 text; values as yq builds them)        *)
 (* ------------------------------------------------------------------ *)
 
@@ -781,6 +842,37 @@ Fixpoint rt_domain (v : jvalue) : bool :=
   | JObj m => forallb (fun kv => valid_utf8 (fst kv) && rt_domain (snd kv)) m
   end.
 
+(* what the reader makes of a value whose float tokens it accepts: a token
+   denoting an integer in int64 range comes back as that integer, every other
+   token as itself *)
+Fixpoint reclass (v : jvalue) : jvalue :=
+  match v with
+  | JFloat t => match classify_number t with Ok w => w | Err _ => JFloat t end
+  | JArr l => JArr (map reclass l)
+  | JObj m => JObj (map (fun kv => match kv with (k, x) => (k, reclass x) end) m)
+  | _ => v
+  end.
+
+(* rt_domain with float tokens allowed *)
+Fixpoint rt_domain_f (v : jvalue) : bool :=
+  match v with
+  | JNull | JBool _ => true
+  | JInt z => ((- Z.of_N two63 <=? z) && (z <? Z.of_N two63))%Z
+  | JFloat t => float_token_ok t
+  | JStr s => valid_utf8 s
+  | JArr l => forallb rt_domain_f l
+  | JObj m => forallb (fun kv => valid_utf8 (fst kv) && rt_domain_f (snd kv)) m
+  end.
+
+(* the number a value denotes where it is one *)
+Definition num_value (v : jvalue) : option f64 :=
+  match v with
+  | JInt z => if (z =? 0)%Z then Some (false, 0, 0%Z)
+              else match f64_round (Z.abs_N z) 1 with Some (m, e) => Some (mk_f64 (z <? 0)%Z m e) | None => None end
+  | JFloat t => token_value t
+  | _ => None
+  end.
+
 (* float-free values with int64 integers (any strings) *)
 Fixpoint int64_domain (v : jvalue) : bool :=
   match v with
@@ -842,6 +934,24 @@ Fixpoint dump_node (n : node) : str :=
   | NAlias t => 42 :: dump_node t
   | NZero => [90]
   end.
+
+(* a binary64 as text: sign, m, e *)
+Definition f64_bytes (o : option f64) : str :=
+  match o with
+  | Some (neg, m, e) => (if neg then [45] else [43]) ++ dec_N m ++ 32 :: dec_Z e
+  | None => [69; 82; 82]
+  end.
+
+(* the float printer contract on one observed pair (text of the !!float
+   scalar, token the implementation printed): the token is accepted by the
+   reader and denotes the binary64 ParseFloat gives for the text *)
+Definition fmt_contract_ok (p : str * str) : str :=
+  let '(text, token) := p in
+  if negb (float_token_ok token) then [66; 65; 68; 58; 116; 111; 107]           (* BAD:tok *)
+  else match go_parse_float text, token_value token with
+       | Some a, Some b => if str_eqb (f64_bytes (Some a)) (f64_bytes (Some b)) then [79; 75] else [66; 65; 68; 58; 118; 97; 108]
+       | _, _ => [66; 65; 68; 58; 112; 102]                                     (* BAD:pf *)
+       end.
 
 (* reader: JSON text -> dump of the node, or an error class *)
 Definition model_decode (s : str) : str :=
